@@ -131,12 +131,15 @@ c14_render!(c01_c14_t_render_6x10_fg_native, iso_8859_15::FONT_6X10, 192, 0, tru
 /// Custom font with SYMBOLIC atlas bytes (2x2 glyphs of 3x2 pixels), symbolic spacing and symbolic
 /// glyph indices: every colour case of the glyph draw target, spacing fills, next position.
 macro_rules! c14_custom {
-    ($name:ident, $presence:expr, $native:expr, $unw:expr) => {
+    ($name:ident, $presence:expr, $native:expr, $unw:expr) => { c14_custom!($name, $presence, $native, $unw, 3, 2); };
+    ($name:ident, $presence:expr, $native:expr, $unw:expr, $cw:expr) => { c14_custom!($name, $presence, $native, $unw, $cw, 2); };
+    // $cw x $ch: glyph size (atlas 2x2 glyphs, one byte per atlas row)
+    ($name:ident, $presence:expr, $native:expr, $unw:expr, $cw:expr, $ch:expr) => {
         #[cfg_attr(kani, kani::proof, kani::unwind($unw))]
         pub fn $name() {
             let data: [u8; 4] = bytes::<4>();
             note!("atlas", data);
-            let image = ImageRaw::<BinaryColor>::new(&data, Size::new(6, 4)).unwrap();
+            let image = ImageRaw::<BinaryColor>::new(&data[..2 * $ch], Size::new(2 * $cw, 2 * $ch)).unwrap();
             let i0 = pick(4) as usize;
             let i1 = pick(4) as usize;
             let spacing = small_u(2);
@@ -145,10 +148,10 @@ macro_rules! c14_custom {
             let font = MonoFont {
                 image,
                 glyph_mapping: &map,
-                character_size: Size::new(3, 2),
+                character_size: Size::new($cw, $ch),
                 character_spacing: spacing,
-                baseline: 1,
-                underline: embedded_graphics::mono_font::DecorationDimensions::new(3, 1),
+                baseline: $ch - 1,
+                underline: embedded_graphics::mono_font::DecorationDimensions::new($ch + 1, 1),
                 strikethrough: embedded_graphics::mono_font::DecorationDimensions::new(1, 1),
             };
             let (fg, bg) = (Gray8::new(200), Gray8::new(50));
@@ -170,32 +173,43 @@ macro_rules! c14_custom {
                 (t.last, t.writes, next)
             };
             let sp = spacing as i32;
-            check!(next == pos + Point::new(6 + sp, 0), "C14.next_position");
+            check!(next == pos + Point::new(2 * $cw + sp, 0), "C14.next_position");
             check!(next == style.measure_string("ab", pos, Baseline::Top).next_position, "C15.next_eq_measure");
             let rel = q - pos;
-            let want = if rel.y < 0 || rel.y >= 2 || rel.x < 0 || rel.x >= 6 + sp {
+            let cw: i32 = $cw;
+            let chh: i32 = $ch;
+            let want = if rel.y < 0 || rel.y >= chh || rel.x < 0 || rel.x >= 2 * cw + sp {
                 None
-            } else if rel.x >= 3 && rel.x < 3 + sp {
+            } else if rel.x >= cw && rel.x < cw + sp {
                 if $presence != 0 { Some(bg) } else { None } // spacing gets the background colour
             } else {
-                let (idx, gx) = if rel.x < 3 { (i0 as i32, rel.x) } else { (i1 as i32, rel.x - 3 - sp) };
-                let cell = Point::new((idx % 2) * 3, (idx / 2) * 2);
+                let (idx, gx) = if rel.x < cw { (i0 as i32, rel.x) } else { (i1 as i32, rel.x - cw - sp) };
+                let cell = Point::new((idx % 2) * cw, (idx / 2) * chh);
                 let on = image.pixel(cell + Point::new(gx, rel.y)) == Some(BinaryColor::On);
                 if on { if $presence != 1 { Some(fg) } else { None } } else { if $presence != 0 { Some(bg) } else { None } }
             };
             note!("drawn", last); note!("want", want);
             check!(last == want, "C14.glyph_pixel");
             check!(writes <= 1, "C14.pixel_once");
-            reach!(want == Some(fg) && rel.x >= 3, "reach.on_pixel_second_glyph");
-            reach!(rel.x >= 3 && rel.x < 3 + sp && rel.y >= 0 && rel.y < 2, "reach.spacing");
+            reach!($presence == 1 || (want == Some(fg) && rel.x >= cw), "reach.on_pixel_second_glyph");
+            reach!(rel.x >= cw && rel.x < cw + sp && rel.y >= 0 && rel.y < chh, "reach.spacing");
         }
     };
 }
-c14_custom!(c01_c14_q_custom_fg_native, 0, true, 10);
-c14_custom!(c01_c14_q_custom_bg_native, 1, true, 10);
 c14_custom!(c01_c14_q_custom_both_native, 2, true, 10);
-c14_custom!(c01_c14_q_custom_fg_default, 0, false, 10);
-c14_custom!(c01_c14_q_custom_bg_default, 1, false, 10);
+// foreground-/background-only glyphs reach the target as a filtered pixel stream (nested loops with a
+// symbolic predicate per atlas bit): 2x2 glyphs in the quick tier
+c14_custom!(c01_c14_q_custom_fg_native, 0, true, 5, 2, 1);
+c14_custom!(c01_c14_q_custom_bg_native, 1, true, 5, 2, 1);
+c14_custom!(c01_c14_q_custom_bg_default, 1, false, 5, 2, 1);
+#[cfg(feature = "thorough")]
+c14_custom!(c01_c14_t_custom_fg_native_2x2, 0, true, 7, 2, 2);
+#[cfg(feature = "thorough")]
+c14_custom!(c01_c14_t_custom_bg_native_2x2, 1, true, 7, 2, 2);
+#[cfg(feature = "thorough")]
+c14_custom!(c01_c14_t_custom_fg_default, 0, false, 5, 2, 1);
+#[cfg(feature = "thorough")]
+c14_custom!(c01_c14_t_custom_fg_native_3x2, 0, true, 10, 3);
 
 /// end to end through the real mapping for three concrete characters (first, last mapped, unmapped)
 #[cfg_attr(kani, kani::proof, kani::unwind(100))]
